@@ -9,7 +9,7 @@ import (
 
 // C16 — the flag value parsers never panic on any ASCII byte string of length L.
 //
-//verif:harness param.L=0..2 thorough.param.L=0..3 param.P=0..4 unwind=48 deadline=1500 thorough.deadline=1500
+//verif:harness param.L=0..2 param.P=0..4 unwind=48 deadline=1500 thorough.deadline=1500
 func verif_harness_C16_flag_parsers_bytes() {
 	b := verif_nondet_bytes("v", verif_param("L"))
 	for _, c := range b {
@@ -38,7 +38,7 @@ func verif_harness_C16_flag_parsers_bytes() {
 // C16 — the -rate parser alone on longer values (a count, a slash and a
 // duration need four bytes at least: "1/0s").
 //
-//verif:harness param.L=3..4 thorough.param.L=3..5 unwind=48 deadline=1500 thorough.deadline=1500
+//verif:harness param.L=3..4 unwind=48 deadline=1500 thorough.deadline=1500
 func verif_harness_C16_rate_parser_bytes() {
 	b := verif_nondet_bytes("v", verif_param("L"))
 	for _, c := range b {
